@@ -83,8 +83,26 @@ Definition spec_equal (a b : value) : option bool :=
   | _, _ => None
   end.
 
+(* membership in a list: defined when the left operand can be compared (spec_equal) with every element *)
+Fixpoint spec_member (a : value) (xs : list value) : option bool :=
+  match xs with
+  | [] => Some false
+  | x :: r => match spec_equal a x, spec_member a r with
+              | Some e, Some m => Some (e || m)
+              | _, _ => None
+              end
+  end.
+
 Definition spec_binop (o : binop) (a b : value) : outcome value :=
   match o with
+  | BIn => match b with
+           | VList _ xs => match spec_member a xs with Some r => Ok (VBool r) | None => Unmodelled end
+           | _ => Unmodelled
+           end
+  | BNotIn => match b with
+              | VList _ xs => match spec_member a xs with Some r => Ok (VBool (negb r)) | None => Unmodelled end
+              | _ => Unmodelled
+              end
   | BAdd | BSub | BMul | BDiv | BMod | BPow =>
       match a, b with VInt x, VInt y => spec_arith o x y | _, _ => Unmodelled end
   | BLt | BGt | BLe | BGe =>
@@ -100,11 +118,20 @@ Definition spec_binop (o : binop) (a b : value) : outcome value :=
   | _ => Unmodelled
   end.
 
+Definition spec_simple (v : value) : bool :=
+  match v with
+  | VInt z => spec_in_range z
+  | VBool _ => true
+  | VStr s => spec_plain_str s
+  | _ => false
+  end.
+
 Definition spec_lookup (env : spec_env) (x : bytes) : outcome value :=
   match assoc_bytes env x with
   | Some (VInt z) => spec_int z
   | Some (VBool b) => Ok (VBool b)
   | Some (VStr s) => Ok (VStr s)
+  | Some (VList t xs) => if forallb spec_simple xs then Ok (VList t xs) else Unmodelled   (* only as the right operand of in / not in *)
   | _ => Unmodelled
   end.
 
